@@ -331,3 +331,6 @@ func (s *sess) guardSet(t *an.Trace) (an.StateSet, bool) {
 	}
 	return set, found
 }
+
+// modulePrefix is the import-path prefix of the library's own packages.
+const modulePrefix = "github.com/b2broker/simplefix-go"
